@@ -1,6 +1,8 @@
 package model
 
 import (
+	"fmt"
+	"regexp"
 	"strings"
 )
 
@@ -145,6 +147,27 @@ func (c SliceAssignment) RetError() bool {
 	return false
 }
 
+// loopVars returns names for the index and the element variable of a range
+// loop, i and e unless one of the expressions used inside the loop has an
+// identifier of that name, which the loop variable would shadow.
+func loopVars(exprs ...string) (idx, elem string) {
+	pick := func(base string) string {
+		name := base
+		for n := 1; ; n++ {
+			re := regexp.MustCompile(`\b` + name + `\b`)
+			used := false
+			for _, expr := range exprs {
+				used = used || re.MatchString(expr)
+			}
+			if !used {
+				return name
+			}
+			name = fmt.Sprintf("%s%d", base, n)
+		}
+	}
+	return pick("i"), pick("e")
+}
+
 // SliceLoopAssignment represents a slice assignment with a loop.
 type SliceLoopAssignment struct {
 	LHS string
@@ -163,11 +186,12 @@ func (c SliceLoopAssignment) String() string {
 	sb.WriteString(c.Typ)
 	sb.WriteString(", len(")
 	sb.WriteString(c.RHS)
-	sb.WriteString("))\nfor i, e := range ")
+	idx, elem := loopVars(c.LHS, c.RHS)
+	sb.WriteString("))\nfor " + idx + ", " + elem + " := range ")
 	sb.WriteString(c.RHS)
 	sb.WriteString("{\n")
 	sb.WriteString(c.LHS)
-	sb.WriteString("[i] = e\n}\n}\n")
+	sb.WriteString("[" + idx + "] = " + elem + "\n}\n}\n")
 	return sb.String()
 }
 
@@ -195,13 +219,14 @@ func (c SliceTypecastAssignment) String() string {
 	sb.WriteString(c.Typ)
 	sb.WriteString(", len(")
 	sb.WriteString(c.RHS)
-	sb.WriteString("))\nfor i, e := range ")
+	idx, elem := loopVars(c.LHS, c.RHS, c.Cast)
+	sb.WriteString("))\nfor " + idx + ", " + elem + " := range ")
 	sb.WriteString(c.RHS)
 	sb.WriteString("{\n")
 	sb.WriteString(c.LHS)
-	sb.WriteString("[i] = ")
+	sb.WriteString("[" + idx + "] = ")
 	sb.WriteString(c.Cast)
-	sb.WriteString("(e)\n}\n}\n")
+	sb.WriteString("(" + elem + ")\n}\n}\n")
 	return sb.String()
 }
 
